@@ -165,7 +165,7 @@ theorem insertBefore_inv {f : Forest} (hi : f.Inv) (ref c : Nat) : (f.insertBefo
           | true =>
             exfalso
             obtain ⟨s, hts⟩ := textOf_of_value? hsv hst
-            have := addConsolidate_next_true (f2.prevSibling ref) hcons hta hts
+            have := addConsolidate_next_true (f2.prevSibling ref) hcons hta hts hne
             rw [h2] at this; cases this
         · intro ctx' hctx' n hn
           rw [hctx] at hctx'; cases hctx'
@@ -176,14 +176,14 @@ theorem insertBefore_inv {f : Forest} (hi : f.Inv) (ref c : Nat) : (f.insertBefo
           rw [hself, hsn] at hps
           by_cases hnn : n.value.category = .normal
           · rw [if_pos (by simp [hnn])] at hps
-            refine ⟨?_, ?_⟩
-            · intro e; apply hprev; rw [hps, e]; simp
+            have hnc : n.handle ≠ c := by intro e; apply hprev; rw [hps, e]; simp
+            refine ⟨hnc, ?_⟩
             · cases hnt : n.value.isText with
               | false => rfl
               | true =>
                 exfalso
                 obtain ⟨s, hts⟩ := textOf_of_value? hnv hnt
-                have := addConsolidate_prev_true (some ref) hcons hta hts
+                have := addConsolidate_prev_true (some ref) hcons hta hts hnc
                 rw [← hps, h2] at this
                 cases this
           · refine ⟨?_, ?_⟩
@@ -265,7 +265,7 @@ theorem insertAfter_inv {f : Forest} (hi : f.Inv) (ref c : Nat) : (f.insertAfter
           | true =>
             exfalso
             obtain ⟨s, hts⟩ := textOf_of_value? hsv hst
-            have := addConsolidate_prev_true (f2.nextSibling ref') hcons hta hts
+            have := addConsolidate_prev_true (f2.nextSibling ref') hcons hta hts hne
             rw [h2] at this; cases this
         · intro ctx' hctx' n rest hn
           rw [hctx] at hctx'; cases hctx'
@@ -275,14 +275,14 @@ theorem insertAfter_inv {f : Forest} (hi : f.Inv) (ref c : Nat) : (f.insertAfter
           have hns : f2.nextSibling ref' = some n.handle := by
             unfold nextSibling; rw [hctx]; simp only; rw [hn]
             simp [hnn, hself, hsn]
-          refine ⟨?_, ?_⟩
-          · intro e; apply hnext; rw [hns, e]; simp
+          have hnc : n.handle ≠ c := by intro e; apply hnext; rw [hns, e]; simp
+          refine ⟨hnc, ?_⟩
           · cases hnt : n.value.isText with
             | false => rfl
             | true =>
               exfalso
               obtain ⟨s, hts⟩ := textOf_of_value? hnv hnt
-              have := addConsolidate_next_true (some ref') hcons hta hts
+              have := addConsolidate_next_true (some ref') hcons hta hts hnc
               rw [← hns, h2] at this
               cases this
       cases h3 : f2.checkedInsertAfter ref' c with
